@@ -14,6 +14,11 @@ for path in sys.argv[1:]:
             what = "N2 one-ulp bump: two float segments meeting in a common end point (right end of one = left end of the other) are split next to it at two different points (DESIGN.md 7): " + "; ".join(v["clauses"])
             out[(v["property"], v["key"])] = {"status": "known", "property": "C16", "key": v["key"], "what": what}
             continue
+        if v["property"] == "C16" and fam == "steepfloat" and all(c == "C16 segments-divided-at-different-points (f32)" for c in v["clauses"]):
+            what = ("N2 one-ulp bump in f32 (bump family): the crossing of a steep segment just below its upper left end rounds to the x of that end, "
+                    "divide_segment bumps it for the steep segment only, so the two segments are divided at different points (DESIGN.md 7)")
+            out[(v["property"], v["key"])] = {"status": "known", "property": "C16", "key": v["key"], "what": what}
+            continue
         if v["property"] == "C10" and fam == "fan":
             what = ("N3 single precision: two edges leaving a shared vertex that are collinear to within 1e-7 relative are treated as overlapping by the f32 "
                     "instantiation (the f32 cross product rounds to zero), so the f32 result differs from the f64 result although every coordinate is exactly "
